@@ -81,36 +81,58 @@ func (e *Exec) builtin(fr *Frame, st *BState, x *ssa.Call, name string, args []S
 	case "ssa:wrapnilchk":
 		return args[0]
 	case "append":
-		// fresh slice, contents: prefix copied only for single-element appends is skipped in the spike
+		// Go semantics: in place when the capacity suffices (the result aliases the argument's backing array),
+		// otherwise a fresh backing array holding a's elements followed by b's; the new capacity is unspecified.
 		a := args[0].(*SliceV)
 		b, _ := args[1].(*SliceV)
 		et := x.Type().Underlying().(*types.Slice).Elem()
-		// result: a fresh slice holding a's elements followed by b's (in-place aliasing is not modelled)
-		nb := e.allocAddr(st)
-		res := &SliceV{Ty: x.Type(), Base: nb, Off: intLit(0), Len: a.Len, Cap: e.fresh("append.cap", SInt)}
+		n := intLit(0)
 		if b != nil {
-			res.Len = add(a.Len, b.Len)
+			n = b.Len
 		}
-		e.assume(and(le(res.Len, res.Cap), le(res.Cap, bigLit("MAX64"))))
+		newLen := add(a.Len, n)
+		fits := le(newLen, a.Cap)
+		nb := e.allocAddr(st)
+		ncap := e.fresh("append.cap", SInt)
+		e.assume(and(le(newLen, ncap), le(ncap, bigLit("MAX64"))))
+		res := &SliceV{Ty: x.Type(), Base: ite(fits, a.Base, nb), Off: ite(fits, a.Off, intLit(0)), Len: newLen, Cap: ite(fits, a.Cap, ncap)}
+		e.assume(implies(st.reach, le(newLen, bigLit("MAX64")))) // growslice never yields more than MaxInt elements
+		cn, isConst := constIndex(n)
 		build(et, "", func(path, sort string, _ types.Type) *Term {
 			k := heapKey("A", et, path)
 			arr := e.heapArr(st, k, arrSort(SInt, arrSort(SInt, sort)))
-			na := e.fresh("append.arr"+path, arrSort(SInt, sort))
 			src := sel(arr, a.Base, arrSort(SInt, sort))
+			var bsrc *Term
+			if b != nil {
+				bsrc = sel(arr, b.Base, arrSort(SInt, sort))
+			}
+			// fresh array: prefix copied
+			na := e.fresh("append.arr"+path, arrSort(SInt, sort))
 			nbound++
 			j := mk(SInt, fmt.Sprintf("j!q%d", nbound))
 			e.assume(mk(SBool, "forall", mk("binder", "(("+j.Op+" Int))"), implies(and(le(intLit(0), j), lt(j, a.Len)), eq(sel(na, j, sort), sel(src, add(a.Off, j), sort)))))
+			inPlace := src
 			if b != nil {
-				if n, ok := constIndex(b.Len); ok {
-					bsrc := sel(arr, b.Base, arrSort(SInt, sort))
-					for q := 0; q < n; q++ {
-						e.assume(eq(sel(na, add(a.Len, intLit(int64(q))), sort), sel(bsrc, add(b.Off, intLit(int64(q))), sort)))
+				if isConst {
+					for q := 0; q < cn; q++ {
+						v := sel(bsrc, add(b.Off, intLit(int64(q))), sort)
+						e.assume(eq(sel(na, add(a.Len, intLit(int64(q))), sort), v))
+						inPlace = sto(inPlace, add(add(a.Off, a.Len), intLit(int64(q))), v)
 					}
 				} else {
-					e.note("append of a slice of unknown length: appended contents not tracked")
+					nbound++
+					q := mk(SInt, fmt.Sprintf("q!q%d", nbound))
+					e.assume(mk(SBool, "forall", mk("binder", "(("+q.Op+" Int))"), implies(and(le(intLit(0), q), lt(q, n)), eq(sel(na, add(a.Len, q), sort), sel(bsrc, add(b.Off, q), sort)))))
+					ip := e.fresh("append.inplace"+path, arrSort(SInt, sort))
+					nbound++
+					p := mk(SInt, fmt.Sprintf("p!q%d", nbound))
+					lo := add(a.Off, a.Len)
+					e.assume(mk(SBool, "forall", mk("binder", "(("+p.Op+" Int))"), eq(sel(ip, p, sort),
+						ite(and(le(lo, p), lt(p, add(lo, n))), sel(bsrc, add(b.Off, sub(p, lo)), sort), sel(src, p, sort)))))
+					inPlace = ip
 				}
 			}
-			st.heap[k] = sto(arr, nb, na)
+			st.heap[k] = ite(fits, sto(arr, a.Base, inPlace), sto(arr, nb, na))
 			return nil
 		})
 		return res
@@ -150,6 +172,8 @@ func (e *Exec) callStatic(fr *Frame, st *BState, x *ssa.Call, f *ssa.Function, a
 		// continue in caller with callee's exit state
 		st.cells = out.cells
 		st.heap = out.heap
+		st.ghost = out.ghost // allocation frontier, ghost traces
+		st.hepoch = out.hepoch
 		// paths where callee does not return (panics) are cut: reach narrows
 		st.reach = out.reach
 		switch len(vals) {
@@ -370,6 +394,17 @@ func init() {
 		e.assume(implies(lt(intLit(0), d), and(le(r, t), lt(sub(t, r), d), eq(sub(r, zero), app(SInt, "*", d, q)))))
 		return tm(r, scal(args[0].(*StructV).Fields[1]), x.Type())
 	}
+	externs["(time.Time).IsZero"] = func(e *Exec, st *BState, x *ssa.Call, args []SV) SV {
+		return &Scalar{T: eq(nsOf(args[0]), bigLit("(- 62135596800000000000)")), Ty: x.Type()}
+	}
+	externs["(time.Time).Equal"] = func(e *Exec, st *BState, x *ssa.Call, args []SV) SV {
+		return &Scalar{T: eq(nsOf(args[0]), nsOf(args[1])), Ty: x.Type()}
+	}
+	externs["(time.Time).Sub"] = func(e *Exec, st *BState, x *ssa.Call, args []SV) SV {
+		d := sub(nsOf(args[0]), nsOf(args[1]))
+		// saturates at the Duration range
+		return &Scalar{T: ite(lt(bigLit("MAX64"), d), bigLit("MAX64"), ite(lt(d, bigLit("MIN64")), bigLit("MIN64"), d)), Ty: x.Type()}
+	}
 	externs["(time.Time).After"] = func(e *Exec, st *BState, x *ssa.Call, args []SV) SV {
 		return &Scalar{T: lt(nsOf(args[1]), nsOf(args[0])), Ty: x.Type()}
 	}
@@ -487,19 +522,28 @@ func (e *Exec) callByContract(fr *Frame, st *BState, x *ssa.Call, f *ssa.Functio
 	}
 	pre := st.clone()
 	if !ct.Flags["pure"] && funcMayWrite(f, map[*ssa.Function]bool{}) {
+		// frame: the heap regions (by static type of the written location) the callee's code may store to
+		keys := map[string]bool{}
+		writeKeys(f, map[*ssa.Function]bool{}, keys)
 		for k, h := range st.heap {
-			if strings.HasPrefix(k, "G|") {
-				continue
+			for pre := range keys {
+				if strings.HasPrefix(k, pre) {
+					st.heap[k] = e.fresh("call."+f.Name()+"."+k, h.Sort)
+					break
+				}
 			}
-			st.heap[k] = e.fresh("call."+f.Name()+"."+k, h.Sort)
 		}
 		epochCounter++
-		st.hepoch[""] = epochCounter
+		for pre := range keys {
+			st.hepoch[pre] = epochCounter
+		}
 		old := e.frontier(st)
 		nf := e.fresh("call.frontier", SInt)
 		e.assume(le(old, nf))
 		st.ghost["$frontier"] = intSV(nf)
-		e.note("call by contract of " + label + " havocs the heap (no modifies clause)")
+	}
+	if o, m := producesInto(f); o || m {
+		e.havocOutTraces(st, "call."+f.Name(), o, m)
 	}
 	var res SV
 	var results []SV
@@ -527,4 +571,38 @@ func (e *Exec) callByContract(fr *Frame, st *BState, x *ssa.Call, f *ssa.Functio
 		e.assume(implies(st.reach, scal(post.eval(en.Expr))))
 	}
 	return res
+}
+
+// havocOutTraces: a callee that may call produce/metaSend extends the ghost output traces by an unknown suffix
+// (the prefix is unchanged); what it appended is described by the callee's ensures.
+func (e *Exec) havocOutTraces(st *BState, why string, out, outm bool) {
+	for _, g := range []string{"OUT", "OUTM"} {
+		if g == "OUT" && !out || g == "OUTM" && !outm {
+			continue
+		}
+		v, ok := st.ghost[g]
+		if !ok {
+			continue
+		}
+		sl := v.(*SliceV)
+		n := e.fresh(why+"."+g+".len", SInt)
+		e.assume(and(le(sl.Len, n), lt(n, bigLit("MAX64"))))
+		st.ghost[g] = &SliceV{Ty: sl.Ty, Base: sl.Base, Off: sl.Off, Len: n, Cap: sl.Cap}
+		et := sl.Ty.Underlying().(*types.Slice).Elem()
+		oldLen := sl.Len
+		build(et, "", func(path, sort string, _ types.Type) *Term {
+			k := heapKey("A", et, path)
+			arr := e.heapArr(st, k, arrSort(SInt, arrSort(SInt, sort)))
+			na := e.fresh(why+"."+g+path, arrSort(SInt, sort))
+			nbound++
+			j := mk(SInt, fmt.Sprintf("j!q%d", nbound))
+			oldInner := sel(arr, sl.Base, arrSort(SInt, sort))
+			e.assume(mk(SBool, "forall", mk("binder", "(("+j.Op+" Int))"), implies(and(le(intLit(0), j), lt(j, oldLen)), eq(sel(na, j, sort), sel(oldInner, j, sort)))))
+			st.heap[k] = sto(arr, sl.Base, na)
+			return nil
+		})
+		if g == "OUT" {
+			st.heap[netKey(g)] = e.fresh(why+".net."+g, sortArrII)
+		}
+	}
 }
